@@ -6,6 +6,7 @@ package h
 
 import (
 	"fmt"
+	"math"
 	"math/rand"
 	"runtime"
 	"sort"
@@ -50,6 +51,10 @@ var devKinds = []string{
 	"win-zero", "win-max", "insert-new-reuse-last-finished", "insert-new-dup", "insert-new-dup-badrev", "insert-new-lower-badrev", "insert-new-negative-badrev", "insert-new-dup-badmethod", "insert-new-lower", "insert-new-negative", "insert-frame-unknown-id", "big-chunk", "insert-data-after",
 }
 
+// idTop, when set, makes genConversation shift the stream ids so that the last stream created has
+// the largest id there is (math.MaxInt64): the id arithmetic of the endpoints must hold up there.
+var idTop bool
+
 func genConversation(rng *rand.Rand, nStreams int, maxSize int, rev tunnelpb.ProtocolRevision) *conversation {
 	c := &conversation{}
 	shapes := []string{"Unary", "ClientStream", "ServerStream", "Bidi"}
@@ -82,6 +87,12 @@ func genConversation(rng *rand.Rand, nStreams int, maxSize int, rev tunnelpb.Pro
 	for _, s := range c.streams {
 		s.id = id
 		id += 1 + int64(rng.Intn(3))/2
+	}
+	if idTop {
+		shift := int64(math.MaxInt64) - c.streams[len(c.streams)-1].id
+		for _, s := range c.streams {
+			s.id += shift
+		}
 	}
 	for _, s := range c.streams {
 		s.base = append(s.base, fNew(s.id, "verif.Svc/"+s.method, s.tag, rev, 65536))
@@ -457,11 +468,13 @@ func init() {
 	listers["C09"] = func(tier string, seed int64) []Case {
 		var out []Case
 		rng := rand.New(rand.NewSource(seed*7907 + 9))
-		nconv, nrev1 := 8, 6
+		nconv, nrev1 := 10, 6
 		stride := 2
+		ntop := 2 // the last conversations use ids up to math.MaxInt64
 		if tier == "thorough" {
-			nconv, nrev1 = 100, 80
+			nconv, nrev1 = 110, 80
 			stride = 1
+			ntop = 10
 		}
 		for ci := 0; ci < nconv; ci++ {
 			cseed := rng.Int63()
@@ -469,10 +482,16 @@ func init() {
 			// the last conversations open their streams with protocol revision zero (no flow
 			// control on those streams, on a tunnel that negotiated revision one)
 			rev0 := 0
-			if ci >= nrev1 {
+			if ci >= nrev1 && ci < nconv-ntop {
 				rev0 = 1
 			}
+			top := 0
+			if ci >= nconv-ntop {
+				top = 1
+			}
+			idTop = top == 1
 			conv := genConversation(rand.New(rand.NewSource(cseed)), nstreams, 19000, tunnelpb.ProtocolRevision(1-rev0))
+			idTop = false
 			nf := len(conv.frames)
 			for di, kind := range devKinds {
 				off := (ci*31 + di*3) % stride
@@ -481,7 +500,7 @@ func init() {
 						continue
 					}
 					dir := []string{"forward", "reverse"}[(p+di)%2]
-					out = append(out, Case{Family: "rawconv", Seed: cseed, Cfg: WorldCfg{Dir: dir}, P: map[string]int{"pos": p, "nstreams": nstreams, "burst": (p / stride) % 2, "rev0": rev0}, S: map[string]string{"dev": kind}})
+					out = append(out, Case{Family: "rawconv", Seed: cseed, Cfg: WorldCfg{Dir: dir}, P: map[string]int{"pos": p, "nstreams": nstreams, "burst": (p / stride) % 2, "rev0": rev0, "idtop": top}, S: map[string]string{"dev": kind}})
 				}
 			}
 		}
@@ -498,7 +517,9 @@ func init() {
 }
 
 func famRawConv(w *World, c *Case, rng *rand.Rand) {
+	idTop = c.p("idtop", 0) == 1
 	conv := genConversation(rand.New(rand.NewSource(c.Seed)), c.p("nstreams", 2), 19000, tunnelpb.ProtocolRevision(1-c.p("rev0", 0)))
+	idTop = false
 	frames := conv.frames
 	desc := "none"
 	kind := c.s("dev", "none")
